@@ -41,7 +41,9 @@ then payload type, single in-order consumer, `ring.Close()` discards, `Pull` sto
 ignores `closed`, the reliable-mode receiver passes every packet through, a channel pair is in use when a
 set-up media sits on c-1, c or c+1, the server picks the first free even pair, an explicit pair is checked,
 `readPacketRTP` (server and client) always keeps the UDP read buffer, a PLAY while playing neither replaces the
-writer nor re-activates, the MIKEY CS-ID map lists every SSRC of the media with its rollover counter. -/
+writer nor re-activates, the MIKEY CS-ID map lists every SSRC of the media with its rollover counter, the plain packet of a secure
+writer (stream, session, client) may use MaxPacketSize minus the SRTP overhead, pkg/conn hands every frame /
+response / request to the connection in one Write. -/
 theorem code_shape :
     (Facts.Pipe.ssrcRewrittenByStream && Facts.Pipe.fanoutOverActiveUnicastReaders &&
      Facts.Pipe.fanoutErrorGoesToHandler && Facts.Pipe.writeUnderStreamRLock &&
@@ -56,7 +58,10 @@ theorem code_shape :
      Facts.Pipe.freeChannelPairFirstEven && Facts.Pipe.explicitChannelPairChecked &&
      Facts.Pipe.serverFormatKeepsReadBuffer && Facts.Pipe.clientFormatKeepsReadBuffer &&
      Facts.Pipe.playCreatesWriterOnlyWhenNotPlaying && Facts.Pipe.playActivatesOnlyWhenNotPlaying &&
-     Facts.Pipe.mikeyAnnouncesEverySSRC) = true ∧
+     Facts.Pipe.mikeyAnnouncesEverySSRC && Facts.Pipe.streamPlainBufferMinusSrtpOverhead &&
+     Facts.Pipe.sessionPlainBufferMinusSrtpOverhead && Facts.Pipe.clientPlainBufferMinusSrtpOverhead &&
+     Facts.Pipe.frameWrittenInOneWrite && Facts.Pipe.responseWrittenInOneWrite &&
+     Facts.Pipe.requestWrittenInOneWrite) = true ∧
     Facts.Pipe.interleavedMagic = 36 := by decide
 
 /-- **Isolation.**  A reader's state depends only on the writes and on its own events: what the other
